@@ -79,8 +79,8 @@ def _axis(draw, max_rows, why=None):
 
 
 @st.composite
-def _case(draw, max_rows, why=None):
-    target = draw(st.sampled_from(TARGETS))
+def _case(draw, max_rows, why=None, targets=None):
+    target = draw(st.sampled_from(targets or TARGETS))
     if why:
         # one axis carries the refused combination, the other one is valid
         on_rho = target in EAM and draw(st.booleans())
@@ -94,7 +94,9 @@ def strategy(tier):
 
 
 def strata(tier):
-    return [("small", _case(600), 7), ("large", _case(20000), 3)] + [("reject:" + w, _case(60, w), 0.25) for w in WHYS]
+    # GULP and the spreadsheets walk the grid with their own row iterators (the others take nr and a step)
+    return [("small", _case(600), 7), ("large", _case(20000), 3),
+            ("row_iterators", _case(600, None, ["GULP", "excel", "excel_eam", "excel_eam_fs"]), 3)] + [("reject:" + w, _case(60, w), 0.25) for w in WHYS]
 
 
 def budget(tier):
